@@ -44,16 +44,20 @@ Proof.
   intros. destruct (lookup l k) eqn:E; eauto. exfalso. eapply lookup_none_notin; eauto.
 Qed.
 
+(* [KP]: which keys module code may touch (RootProofs: well-formed state keys of the run's key universe) *)
+Section Keys.
+  Variable KP : bytes -> Prop.
+
 (* the invariant of one cache over the persisted store s *)
 Definition cache_good (s : store) (c : cache) : Prop :=
-  NoDup (map fst c) /\ coherent s c /\ (forall k, In k (map fst c) -> wfkey k).
+  NoDup (map fst c) /\ coherent s c /\ (forall k, In k (map fst c) -> KP k).
 
 Definition entry_ok (s : store) (k : bytes) (e : entry) : Prop :=
   en_init e = lookup s k /\
   (en_dirty e = false -> en_deleted e = false -> en_init e <> None -> Some (en_val e) = lookup s k) /\
   (en_init e = None -> en_deleted e = false).
 
-Lemma put_good : forall s c k e, cache_good s c -> wfkey k -> entry_ok s k e -> cache_good s (put c k e).
+Lemma put_good : forall s c k e, cache_good s c -> KP k -> entry_ok s k e -> cache_good s (put c k e).
 Proof.
   intros s c k e [N [C W]] Hk He. split; [apply put_nodup; auto|]. split.
   - intros k1 e1 H1. destruct (bytes_eqb k k1) eqn:B.
@@ -71,14 +75,14 @@ Proof.
   - intros k1 H1. apply W. eapply remove_keys_incl; eauto.
 Qed.
 
-Lemma db_get_good : forall s c k r c', cache_good s c -> wfkey k -> db_get s c k = (r, c') -> cache_good s c'.
+Lemma db_get_good : forall s c k r c', cache_good s c -> KP k -> db_get s c k = (r, c') -> cache_good s c'.
 Proof.
   intros s c k r c' G Hk. unfold db_get. destruct (lookup c k). { intro H; inversion H; subst; auto. }
   destruct (lookup s k) eqn:E; intro H; inversion H; subst; auto.
   apply put_good; auto. unfold entry_ok; simpl. repeat split; auto; discriminate.
 Qed.
 
-Lemma db_set_good : forall s c k v, cache_good s c -> wfkey k -> cache_good s (db_set s c k v).
+Lemma db_set_good : forall s c k v, cache_good s c -> KP k -> cache_good s (db_set s c k v).
 Proof.
   intros s c k v G Hk. unfold db_set. destruct (lookup c k) as [e|] eqn:E.
   - destruct G as [N [C W]]. destruct (C _ _ E) as [C1 [C2 C3]].
@@ -86,7 +90,7 @@ Proof.
   - destruct (lookup s k) eqn:E2; apply put_good; auto; unfold entry_ok; simpl; repeat split; auto; try discriminate; congruence.
 Qed.
 
-Lemma db_del_good : forall s c k, cache_good s c -> wfkey k -> cache_good s (db_del s c k).
+Lemma db_del_good : forall s c k, cache_good s c -> KP k -> cache_good s (db_del s c k).
 Proof.
   intros s c k G Hk. unfold db_del.
   set (c1 := match lookup c k with
@@ -107,7 +111,7 @@ Qed.
 
 (* every key a script touches is a module-store key *)
 Definition action_wf (a : action) : Prop :=
-  match a with ASet k _ | ADel k | AGet k => wfkey k | _ => True end.
+  match a with ASet k _ | ADel k | AGet k => KP k | _ => True end.
 
 Lemma nlookup_nremove_some : forall {A : Type} (l : list (nat * A)) n m a, nlookup (nremove l n) m = Some a -> nlookup l m = Some a.
 Proof.
@@ -258,3 +262,4 @@ Qed.
 
 Lemma empty_cache_good : forall s, cache_good s [].
 Proof. intros. split; [constructor|]. split. - intros k e H. discriminate. - intros k H. inversion H. Qed.
+End Keys.
